@@ -88,13 +88,35 @@ _ns.requires = []
 _ns.cases[0]["ensures"] = ["(0 <= from_ and (to is None or (from_ <= to and to <= self.content.size))) ==> "
                            "result.content.size - result.open_start - result.open_end == (self.content.size if to is None else to) - from_"]
 
-contract(FR, "Slice.insert_at", {"self": "Slice", "pos": "int", "fragment": "Fragment"}, returns="opt[Slice]",
-         may_raise={"ValueError": "True"},
-         ensures=["result is not None ==> result.open_start == self.open_start and result.open_end == self.open_end"],
-         props=P)
+from . import model_diff  # noqa: E402,F401  (wt / tree-wf: documents are finite trees)
+
+FF = "prosemirror/model/fragment.py"
+contract(FF, "Fragment.cut", {"self": "Fragment", "from_": "int", "to": "opt[int]"}, returns="Fragment", may_raise={"ValueError": "True"},
+         trusted="C02 (bounded): token-level meaning of cutting a fragment; nothing about the result is assumed here", props=P)
+
+lemma("bidx-unique", {"c": "list[Node]", "pos": "int", "idx": "int", "k": "int"},
+      requires=["0 <= k", "k <= idx", "idx <= len(c)", "pre(c, idx) <= pos",
+                "pre(c, idx) == pos or (idx < len(c) and pos < pre(c, idx + 1))"],
+      ensures=["bidx(c, pos, k) == idx"], induct="k", step=1, decreases="idx - k",
+      calls=[("pre-step", ["c", "k + 1", "idx"]), ("pre-step", ["c", "idx", "idx + 1"])],
+      terms=["pre(c, idx + 1)", "pre(c, k + 1)"], props=P)
+
+lemma("ins-unfold", {"c": "list[Node]", "d": "int", "i": "list[Node]", "pt": "NodeType", "os_": "int", "oe": "int"},
+      ensures=["ins_chk(c, d, i, pt, os_, oe) == (replace_ok(pt, c, bidx(c, d, 0), bidx(c, d, 0), i, 0, len(i)) if at_boundary(c, d) else ins_deeper(c, d, i, os_, oe))",
+               "ins_nochk(c, d, i, os_, oe) == (at_boundary(c, d) or ins_deeper(c, d, i, os_, oe))"], props=P)
+
+C_ = "content.content"
 contract(FR, "insert_into", {"content": "Fragment", "dist": "int", "insert": "Fragment", "parent": "opt[Node]", "open_start": "int", "open_end": "int"},
-         returns="opt[Fragment]", may_raise={"ValueError": "True"},
-         trusted="C01 (bounded): where the gap content lands and which landing node is checked; replace-around steps with nested / open wrappers in the bounded driver",
+         returns="opt[Fragment]",
+         requires=["parent is not None ==> parent.content == content"],
+         may_raise={"ValueError": "True"},
+         # None exactly when the landing node is complete and does not accept the gap content there
+         ensures=[f"(result is None) == (not (ins_chk({C_}, dist, insert.content, parent.type, open_start, open_end) if parent is not None"
+                  f" else ins_nochk({C_}, dist, insert.content, open_start, open_end)))"],
+         decreases="wt(content)",
+         calls_func={"insert_into": [("tree-wf", ["content", "index"])]},
+         calls=[("bidx-unique", [C_, "dist", "index", "0"]), ("ins-unfold", [C_, "dist", "insert.content", "parent.type", "open_start", "open_end"])],
+         locals={"inner": "opt[Fragment]", "child": "opt[Node]"},
          props=P)
 
 STRUCT_RS = "self.structure and cbetween(doc, self.from_, self.to)"
@@ -111,3 +133,9 @@ contract(FRS, "ReplaceAroundStep.apply", {"self": "ReplaceAroundStep", "doc": "N
                   # the gap must be a flat range: open on neither side
                   "(sl_os(doc, self.gap_from, self.gap_to) != 0 or sl_oe(doc, self.gap_from, self.gap_to) != 0) ==> result.failed is not None"],
          props=P + ["C03"])
+
+contract(FR, "Slice.insert_at", {"self": "Slice", "pos": "int", "fragment": "Fragment"}, returns="opt[Slice]",
+         may_raise={"ValueError": "True"},
+         ensures=["result is not None ==> result.open_start == self.open_start and result.open_end == self.open_end",
+                  "(result is None) == (not ins_nochk(self.content.content, pos + self.open_start, fragment.content, self.open_start, self.open_end))"],
+         props=P)
